@@ -1,19 +1,25 @@
 ---------------------------- MODULE Trace_Hygiene ----------------------------
 EXTENDS Naturals, Sequences, TLC, Json, IOUtils, TraceCommon
 Rec == ndJsonDeserialize(IOEnv.VERIF_TRACE)
-VARIABLE l
+VARIABLES l, first      \* first: shape -> the schema name the first configuration of that shape published
 E == Rec[l]
-TInit == l = 1 /\ TLCSet(1, 1)
+TInit == l = 1 /\ first = <<>> /\ TLCSet(1, 1)
+Seen(sh) == \E i \in 1..Len(first) : first[i].shape = sh
+FirstOf(sh) == first[CHOOSE i \in 1..Len(first) : first[i].shape = sh].schema
 TrHygiene ==
     /\ l <= Len(Rec) /\ E.ev = "Hygiene"
     /\ Chk("C19", "program_builds_with_this_type_parameter_name", l, E.built)
     /\ Chk("C19", "program_behaves_as_with_any_other_name", l, E.built => (E.ran /\ E.handler = "put" /\ E.query = "get"))
+    \* (nothing the contract publishes is spelled with the user's parameter names: the schema name of its contract-level message)
+    /\ Chk("C19", "published_schema_name_does_not_depend_on_the_parameter_name", l,
+           (E.built /\ "schema" \in DOMAIN E /\ Seen(E.shape)) => E.schema = FirstOf(E.shape))
+    /\ first' = IF E.built /\ "schema" \in DOMAIN E /\ ~Seen(E.shape) THEN Append(first, [shape |-> E.shape, schema |-> E.schema]) ELSE first
     /\ l' = l + 1 /\ TLCSet(1, l + 1)
 TrBuild ==
     /\ l <= Len(Rec) /\ E.ev = "Build"
     /\ Chk("C19", "program_builds_under_the_renamed_dependency", l, E.verdict = "ok")
-    /\ l' = l + 1 /\ TLCSet(1, l + 1)
-TSpec == TInit /\ [][TrHygiene \/ TrBuild]_l
+    /\ l' = l + 1 /\ TLCSet(1, l + 1) /\ UNCHANGED first
+TSpec == TInit /\ [][TrHygiene \/ TrBuild]_<<l, first>>
 TraceAccepted ==
     LET reached == TLCGet(1) IN
     IF reached = Len(Rec) + 1 THEN TRUE ELSE Print(<<"UNMATCHED", reached, Rec[reached]>>, FALSE)
